@@ -87,9 +87,9 @@ impl<T: UsesTypeParams, U> UsesTypeParams for Punctuated<T, U> {
 }
 
 uses_type_params!(syn::AngleBracketedGenericArguments, args);
-uses_type_params!(syn::AssocType, ty);
+uses_type_params!(syn::AssocType, generics, ty);
 uses_type_params!(syn::BareFnArg, ty);
-uses_type_params!(syn::Constraint, bounds);
+uses_type_params!(syn::Constraint, generics, bounds);
 uses_type_params!(syn::DataEnum, variants);
 uses_type_params!(syn::DataStruct, fields);
 uses_type_params!(syn::DataUnion, fields);
